@@ -68,6 +68,7 @@ def the_forms(dom):
         "facet_normal": dot(grad(f), n) * conj(v) * ds + dot(w, n) * conj(v) * ds,
         "interior_facet": jump(u) * conj(jump(v)) * dS + avg(f) * u("+") * conj(v("-")) * dS,
         "interior_grad": inner(jump(grad(u)), jump(grad(v))) * dS,
+        "interior_normal": f("+") * dot(w("-"), n("-")) * conj(v("+")) * dS + dot(jump(w), n("+")) * conj(avg(v)) * dS,
         "hessian": inner(grad(grad(u)), grad(grad(v))) * dx,
         "functional": f * f * dx + dot(w, w) * ds,
         "det_tr": det(grad(w)) * conj(v) * dx + tr(grad(w)) * f * conj(v) * dx,
@@ -160,6 +161,10 @@ def run(spec):
         return outcome(name, "rejected", detail="form not defined on this cell")
     opts = dict(zip(OPTS, spec["opts"]))
     cm = spec["complex"]
+    if spec["form"] == "interior_normal" and not opts["do_apply_geometry_lowering"] and spec["gdim"] == dom.topological_dimension:
+        # with the normal left un-lowered on a flat mesh, restriction propagation may use n('-') = -n('+'), which
+        # holds by mesh conformity; this check's two-sided environment has independent cells (C17's has conformity)
+        return outcome(name, "rejected", detail="needs mesh conformity of the two cells (covered by C17's environment)")
     r0 = repr(F)
     sample = f"{spec['form']} on {spec['cell']} in R^{spec['gdim']} opts={''.join('1' if o else '0' for o in spec['opts'])} " \
              f"complex={cm}"
@@ -259,7 +264,7 @@ def specs(tier):
                                                                 (True, True, True, True, True))]
                 for o in opts_list:
                     facets = [0] if not thorough else list(range({"interval": 2, "triangle": 3, "tetrahedron": 4}[cell]))
-                    if fk in ("facet_normal", "hdiv_flux", "interior_facet") and (cell, g) == ("triangle", 2):
+                    if fk in ("facet_normal", "hdiv_flux", "interior_facet", "interior_normal") and (cell, g) == ("triangle", 2):
                         facets = [0, 1, 2]
                     for fct in facets:
                         S.append(dict(name=f"{fk}/{cell}{g}/{'c' if cm else 'r'}/{''.join('1' if x else '0' for x in o)}/f{fct}",
